@@ -519,11 +519,44 @@ def run(ctx):
     scope = [g for g in p.all_funcs if g.module.relpath in ("anytree/node/util.py", "anytree/node/node.py", "anytree/node/anynode.py",
                                                             "anytree/node/symlinknode.py", RENDER)]
     rule_mixed_membership(ctx, typer, scope, "V4")
+    _sorted_by_name_rule(ctx, p)
     if undecided and not ctx.new_findings():
         raise AnalysisError("C09 cannot follow this implementation of RenderTree: %s" % "; ".join(undecided[:3]))
     ctx.floor("V1", 6)
     ctx.floor("V2", 2)
     ctx.floor("V3", 2)
+
+
+def _sorted_by_name_rule(ctx, p):
+    """V4: the public attributes of a repr are sorted by NAME - what is handed to sorted()/.sort() in `_repr` are the (name,
+    value) items or the names, never the formatted `name=value` strings: text order differs from name order as soon as one
+    name is a prefix of another ('x=' > 'x1=' because '=' > '1')"""
+    from .common import resolve_local
+    fs = [g for g in p.all_funcs if g.module.relpath == "anytree/node/util.py" and g.srcname == "_repr"]
+    for f in fs:
+        ctx.touch(f)
+
+        def formatted(e, depth=0):
+            e = resolve_local(f, e) if isinstance(e, ast.Name) else e
+            if isinstance(e, (ast.ListComp, ast.GeneratorExp, ast.SetComp)):
+                el = e.elt
+                return (isinstance(el, ast.BinOp) and isinstance(el.op, ast.Mod) and isinstance(el.left, ast.Constant) and isinstance(el.left.value, str)) \
+                    or isinstance(el, ast.JoinedStr) or (isinstance(el, ast.Call) and isinstance(el.func, ast.Attribute) and el.func.attr == "format")
+            if isinstance(e, ast.BinOp) and isinstance(e.op, ast.Add) and depth < 3:
+                return formatted(e.left, depth + 1) or formatted(e.right, depth + 1)
+            return False
+        for c in ast.walk(f.node):
+            if isinstance(c, ast.Call) and isinstance(c.func, ast.Name) and c.func.id == "sorted" and c.args:
+                if formatted(c.args[0]) and not any(k.arg == "key" for k in c.keywords):
+                    ctx.viol("V4", f, c, "`%s` sorts the formatted `name=value` strings: the attributes come out in text order, not sorted by "
+                             "name (a name that is a prefix of another one sorts after it: 'x=' > 'x1=')" % norm(c)[:70],
+                             construct="_repr: formatted strings sorted")
+                else:
+                    ctx.inst("V4", f, c, "attributes sorted before formatting")
+            if isinstance(c, ast.Call) and isinstance(c.func, ast.Attribute) and c.func.attr == "sort" and formatted(c.func.value) \
+                    and not any(k.arg == "key" for k in c.keywords):
+                ctx.viol("V4", f, c, "`%s` sorts the formatted `name=value` strings: text order, not name order" % norm(c)[:70],
+                         construct="_repr: formatted strings sorted")
 
 
 def _by_attr_value_rule(ctx, p, undecided):
